@@ -3,6 +3,7 @@ import CG.Proofs.C08RoundTrip
 import CG.Proofs.C08RoundTripTs
 import CG.Proofs.C08Lagged
 import CG.Proofs.C08LaggedRoundTrip
+import CG.Proofs.C08Gml
 #print axioms CG.C08.entry_law
 #print axioms CG.C08.toNumpy_refuses_iff
 #print axioms CG.C08.toNetworkx_refuses_iff
@@ -35,3 +36,20 @@ import CG.Proofs.C08LaggedRoundTrip
 #print axioms CG.C08.fromAdjMatrices_toNumpyByLag_min_refused
 #print axioms CG.C08.fromAdjMatrices_toNumpyByLag_full
 #print axioms CG.C08.lagImage_eq
+#print axioms CG.C08Gml.unescape_escape
+#print axioms CG.C08Gml.escape_chars
+#print axioms CG.C08Gml.escape_cons
+#print axioms CG.C08Gml.unescape_escape_string
+#print axioms CG.C08Gml.tokenize_generated
+#print axioms CG.C08Gml.parse_generate
+#print axioms CG.C08Gml.nxOrder_of_view
+#print axioms CG.C08Gml.nxOrder_eq_view
+#print axioms CG.C08Gml.parse_generate_strings
+#print axioms CG.C08Gml.parse_generate_list_label
+#print axioms CG.C08Gml.survives_iff
+#print axioms CG.C08Gml.parseGml_generateGml
+#print axioms CG.C08Gml.duplicate_id_refused
+#print axioms CG.C08Gml.duplicate_label_refused
+#print axioms CG.C08Gml.undefined_source_refused
+#print axioms CG.C08Gml.undefined_target_refused
+#print axioms CG.C08Gml.duplicate_edge_refused
